@@ -92,6 +92,10 @@ pub struct NetInner {
     pub record_src_prefixes: Vec<String>,
     pub calls: Vec<CallRec>,
     pub delivered: u64,
+    /// source labels of crashed instances: their connections are dead and they cannot connect
+    pub dead_sources: BTreeSet<String>,
+    /// bumped every time an address is (re-)registered: connections to an older instance are dead
+    pub endpoint_gen: BTreeMap<String, u64>,
 }
 
 #[derive(Clone)]
@@ -159,6 +163,8 @@ impl Net {
                 record_src_prefixes: vec![],
                 calls: vec![],
                 delivered: 0,
+                dead_sources: BTreeSet::new(),
+                endpoint_gen: BTreeMap::new(),
             })),
         }
     }
@@ -169,7 +175,13 @@ impl Net {
     }
 
     pub fn register(&self, addr: &str, ep: Endpoint) {
-        self.inner.lock().endpoints.insert(addr.to_string(), ep);
+        let mut g = self.inner.lock();
+        g.endpoints.insert(addr.to_string(), ep);
+        *g.endpoint_gen.entry(addr.to_string()).or_insert(0) += 1;
+    }
+
+    fn endpoint_generation(&self, addr: &str) -> u64 {
+        self.inner.lock().endpoint_gen.get(addr).cloned().unwrap_or(0)
     }
 
     pub fn unregister(&self, addr: &str) {
@@ -220,9 +232,16 @@ impl Net {
         1 + hash3(g.seed, chan, idx) % g.max_latency_ms
     }
 
+    pub fn kill_source(&self, label: &str) {
+        self.inner.lock().dead_sources.insert(label.to_string());
+    }
+
     fn reachable(&self, src: &str, dst: &str) -> bool {
         let g = self.inner.lock();
         if g.down.contains(dst) {
+            return false;
+        }
+        if g.dead_sources.contains(src) {
             return false;
         }
         for (sp, d) in g.blocked.iter() {
@@ -232,7 +251,7 @@ impl Net {
         }
         // a proxy that is down cannot reach out either
         for d in g.down.iter() {
-            if src == format!("proxy:{}", d) {
+            if src == format!("proxy:{}", d) || src.starts_with(&format!("proxy:{}#", d)) {
                 return false;
             }
         }
@@ -340,13 +359,14 @@ impl Net {
             id
         };
         let chan = hash3(stream_id(src), stream_id(dst), id);
+        let ep_gen = self.endpoint_generation(dst);
         let (req_tx, req_rx) = mpsc::unbounded::<Req>();
         let (mid_tx, mid_rx) = mpsc::unbounded::<Mid>();
         let net = self.clone();
         let src_s = src.to_string();
         let dst_s = dst.to_string();
         self.event("connect", chan, dst);
-        tokio::spawn(deliverer(net.clone(), ep, chan, id, src_s.clone(), dst_s.clone(), req_rx, mid_tx));
+        tokio::spawn(deliverer(net.clone(), ep, ep_gen, chan, id, src_s.clone(), dst_s.clone(), req_rx, mid_tx));
         tokio::spawn(replier(net, chan, mid_rx));
         Ok(Conn { tx: req_tx })
     }
@@ -411,7 +431,7 @@ fn exec_at(net: &Net, ep: &Endpoint, chan: u64, conn_id: u64, cmd: &[Vec<u8>], p
 }
 
 #[allow(clippy::too_many_arguments)]
-async fn deliverer(net: Net, ep: Endpoint, chan: u64, conn_id: u64, src: String, dst: String, mut rx: mpsc::UnboundedReceiver<Req>, mid: mpsc::UnboundedSender<Mid>) {
+async fn deliverer(net: Net, ep: Endpoint, ep_gen: u64, chan: u64, conn_id: u64, src: String, dst: String, mut rx: mpsc::UnboundedReceiver<Req>, mid: mpsc::UnboundedSender<Mid>) {
     let mut last = Instant::now();
     while let Some(req) = rx.next().await {
         let lat = net.latency(chan);
@@ -421,6 +441,12 @@ async fn deliverer(net: Net, ep: Endpoint, chan: u64, conn_id: u64, src: String,
         }
         last = at;
         tokio::time::sleep_until(at).await;
+        if net.endpoint_generation(&dst) != ep_gen {
+            // the peer process was restarted: this connection is gone
+            net.event("lost_peer_restarted", chan, &cmd_brief(&req.cmd));
+            let _ = req.reply.send(Err(()));
+            break;
+        }
         if !net.reachable(&src, &dst) {
             net.fault_fired("msg_lost_unreachable");
             net.event("lost", chan, &cmd_brief(&req.cmd));
@@ -556,6 +582,11 @@ impl ConnFactory for SimConnFactory {
 // ---------------------------------------------------------------------------
 // RedisClientFactory / RedisClient (proxy or coordinator -> anything)
 
+tokio::task_local! {
+    /// which coordinator loop the current task is (set by the harness when it spawns the loops)
+    pub static LOOP_KIND: &'static str;
+}
+
 pub struct SimClientFactory {
     pub net: Net,
     pub src: String,
@@ -574,7 +605,11 @@ impl RedisClientFactory for SimClientFactory {
     fn create_client<'s>(&'s self, address: String) -> Pin<Box<dyn Future<Output = Result<Self::Client, RedisClientError>> + Send + 's>> {
         Box::pin(async move {
             tokio::time::sleep(Duration::from_millis(1)).await;
-            let conn = self.net.connect(&self.src, &address).map_err(RedisClientError::Io)?;
+            let src = match LOOP_KIND.try_with(|k| *k) {
+                Ok(kind) => format!("{}/{}", self.src, kind),
+                Err(_) => self.src.clone(),
+            };
+            let conn = self.net.connect(&src, &address).map_err(RedisClientError::Io)?;
             Ok(SimRedisClient {
                 conn,
                 timeout: self.timeout,
